@@ -1,6 +1,7 @@
 use std::env;
 use std::fs;
 use std::io;
+use std::io::Write;
 use std::rc::Rc;
 
 use builtins::functions::BUILTINFNS;
@@ -95,7 +96,7 @@ pub fn run_prompt(args: Vec<String>) {
                 let saved_constants = constants.clone();
                 let mut compiler = Compiler::new_with_state(symtab, constants);
                 if let Err(e) = compiler.compile(program) {
-                    eprintln!("{}", e);
+                    let _ = writeln!(io::stderr(), "{}", e);
                     symtab = saved_symtab;
                     constants = saved_constants;
                     continue;
@@ -105,7 +106,7 @@ pub fn run_prompt(args: Vec<String>) {
                 init_builtin_vars(&vm, args.clone());
                 let err = vm.run();
                 if let Err(err) = err {
-                    eprintln!("{}", err);
+                    let _ = writeln!(io::stderr(), "{}", err);
                     globals = vm.globals;
                     symtab = compiler.symtab;
                     constants = compiler.constants;
@@ -115,7 +116,7 @@ pub fn run_prompt(args: Vec<String>) {
                 let stack_elem = vm.last_popped();
                 // print last popped element if it is not null
                 if !matches!(stack_elem.as_ref(), Object::Null) {
-                    println!("{}", stack_elem);
+                    let _ = writeln!(io::stdout(), "{}", stack_elem);
                 }
                 globals = vm.globals;
                 symtab = compiler.symtab;
@@ -133,7 +134,7 @@ pub fn run_prompt(args: Vec<String>) {
 pub fn run_file(path: &str, args: Vec<String>, skip_pcap: bool) {
     let buf = fs::read_to_string(path);
     if buf.is_err() {
-        eprintln!("Failed to read file {}", path);
+        let _ = writeln!(io::stderr(), "Failed to read file {}", path);
         return;
     }
     let buf = buf.unwrap();
@@ -160,7 +161,7 @@ pub fn run_buf(buf: String, args: Vec<String>, cmd_mode: bool, skip_pcap: bool) 
 
     let mut compiler = Compiler::new();
     if let Err(e) = compiler.compile(program) {
-        eprintln!("{}", e);
+        let _ = writeln!(io::stderr(), "{}", e);
         return;
     }
     let bytecode = compiler.bytecode();
@@ -174,7 +175,7 @@ pub fn run_buf(buf: String, args: Vec<String>, cmd_mode: bool, skip_pcap: bool) 
     init_builtin_vars(&vm, args);
     let err = vm.run();
     if let Err(err) = err {
-        eprintln!("{}", err);
+        let _ = writeln!(io::stderr(), "{}", err);
     }
 
     if cmd_mode && !filter_mode {
@@ -182,7 +183,7 @@ pub fn run_buf(buf: String, args: Vec<String>, cmd_mode: bool, skip_pcap: bool) 
         let stack_elem = vm.last_popped();
         // print last popped element if it is not null
         if !matches!(stack_elem.as_ref(), Object::Null) {
-            println!("{}", stack_elem);
+            let _ = writeln!(io::stdout(), "{}", stack_elem);
         }
     }
 
@@ -207,7 +208,7 @@ fn run_filters(
     let pcap_in = match Pcap::from_file(Rc::new(FileHandle::Stdin)) {
         Ok(pcap) => pcap,
         Err(err) => {
-            eprintln!("{}", err);
+            let _ = writeln!(io::stderr(), "{}", err);
             return;
         }
     };
@@ -219,7 +220,7 @@ fn run_filters(
         let out = match Pcap::new_with_header(Rc::new(FileHandle::Stdout), header_in) {
             Ok(pcap) => pcap,
             Err(err) => {
-                eprintln!("{}", err);
+                let _ = writeln!(io::stderr(), "{}", err);
                 return;
             }
         };
@@ -237,11 +238,11 @@ fn run_filters(
                 // Run filter statements on the packet
                 for filter in &filters {
                     if let Err(err) = vm.push_filter_frame(filter) {
-                        eprintln!("{}", err);
+                        let _ = writeln!(io::stderr(), "{}", err);
                         break 'out;
                     }
                     if let Err(err) = vm.run() {
-                        eprintln!("{}", err);
+                        let _ = writeln!(io::stderr(), "{}", err);
                         break 'out;
                     }
                     // If the result of the filter is true, then write the packet to stdout
@@ -251,13 +252,13 @@ fn run_filters(
                         Ok(true) => {
                             if let Some(out) = &pcap_out {
                                 if let Err(err) = out.write_all(pkt.clone()) {
-                                    eprintln!("{}", err);
+                                    let _ = writeln!(io::stderr(), "{}", err);
                                     break 'out;
                                 }
                             }
                         }
                         Err(err) => {
-                            eprintln!("{}", err);
+                            let _ = writeln!(io::stderr(), "{}", err);
                             break;
                         }
                         Ok(false) => {}
@@ -267,7 +268,7 @@ fn run_filters(
             }
             Err(err) => {
                 if err.kind() != io::ErrorKind::UnexpectedEof {
-                    eprintln!("{}", err);
+                    let _ = writeln!(io::stderr(), "{}", err);
                 }
                 break;
             }
@@ -279,11 +280,11 @@ fn run_filters(
     // Call the end filter
     if let Some(filter) = filter_end {
         if let Err(err) = vm.push_filter_frame(&filter) {
-            eprintln!("{}", err);
+            let _ = writeln!(io::stderr(), "{}", err);
             return;
         }
         if let Err(err) = vm.run() {
-            eprintln!("{}", err);
+            let _ = writeln!(io::stderr(), "{}", err);
             return;
         }
         // There is nothing to write to stdout for the end filter
@@ -291,7 +292,7 @@ fn run_filters(
         match vm.pop_filter_frame() {
             Ok(_) => {}
             Err(err) => {
-                eprintln!("{}", err);
+                let _ = writeln!(io::stderr(), "{}", err);
             }
         }
     }
@@ -310,7 +311,7 @@ fn parse_program(source: &str) -> Option<Program> {
 
 fn print_parse_errors(parser: &parser::Parser) -> bool {
     if parser.print_errors() {
-        eprintln!("{} parse errors", parser.parse_errors().len());
+        let _ = writeln!(io::stderr(), "{} parse errors", parser.parse_errors().len());
         true
     } else {
         false
